@@ -104,6 +104,20 @@ CHECKS = {
              "algorithm and checksums of the user's arrays and the stored initial copy are compared with the model. The duration after decimation (pinned by "
              "three stable tests) is reported as KNOWN-FINDING, matched by mechanism (T*q == Ndat*dt).",
         ref="3/C14"),
+    "C15": dict(
+        technique="runtime monitoring: recorded API histories checked against an executable model whose expected result digests come from solo runs; enumerated PoSER constructor configurations",
+        text="Exploration with exhaustive parts: all add/run_by_name/mpe/run_all sequences up to length 3 (quick) / 4 (thorough) over three pools of real algorithm "
+             "instances (one pool with a parameterless member) plus sampled histories over all six classes and the PreGER variants; after every call the "
+             "exception outcome, every algorithm's result digest and data checksums are compared with the model; save/load round trips; every PoSER "
+             "constructor configuration over 7 type-list templates x 0..3 setups (4 sampled), name-list lengths 0..3 and single not-run / no-mpe members.",
+        ref="3/C15"),
+    "C16": dict(
+        technique="runtime monitoring: the real dialog driven head-less by real matplotlib events; list-of-pairs model checked after every action; real hand-over through mpe_from_plot",
+        text="Exploration with an exhaustive part: SelFromPlot is constructed for real (Tk replaced by inert stand-ins) and receives Mouse/Key events through the "
+             "canvas callback registry; all sequences up to length 3 (quick) / 4 (thorough) over 11 actions on a 3x4 pole table, random length-6 sequences at "
+             "arbitrary coordinates over tables of real SSIcov / pLSCF / FDD runs; after every action the selection is compared with a list-of-pairs model; "
+             "mpe_from_plot is executed for real and (Fn, order_out) compared with the picked pairs.",
+        ref="3/C16"),
 }
 
 PENDING_REASON = "check not built yet in this session (work in progress; the design in DESIGN.md section 3 applies)"
